@@ -3,6 +3,7 @@
 -/
 import DlmsVerif.Model.Wrapper
 import DlmsVerif.Lemmas.Basic
+import DlmsVerif.Lemmas.Wrapper
 
 namespace Props.C17
 open Dlms Model.Wrapper
@@ -13,25 +14,44 @@ theorem C17_header_roundtrip (v s d n : Nat) (hv : v < 65536) (hs : s < 65536) (
     ∃ bs, Header.toBytes { version := v, src := s, dst := d, length := n } = .ok bs ∧ bs.length = 8 ∧
       bs = beBytes 2 v ++ beBytes 2 s ++ beBytes 2 d ++ beBytes 2 n ∧
       Header.fromBytes bs = .ok { version := v, src := s, dst := d, length := n } := by
-  sorry
+  refine ⟨_, ?_, header_length v s d n, rfl, fromBytes_header v s d n hv hs hd hn⟩
+  simp [Header.toBytes, hv, hs, hd, hn]
 
 /-- fields that do not fit 16 bits are refused. -/
 theorem C17_header_range (h : Header) (hr : ¬ (h.version < 65536 ∧ h.src < 65536 ∧ h.dst < 65536 ∧ h.length < 65536)) :
     h.toBytes = .error .range := by
-  sorry
+  unfold Header.toBytes
+  rw [if_neg hr]
 
 /-- **wrap then unwrap** returns the same ports and payload. -/
 theorem C17_pdu_roundtrip (client server : Nat) (apdu : Bytes)
     (hc : client < 65536) (hs : server < 65536) (hl : apdu.length < 65536) :
     ∃ bs, wrap client server apdu = .ok bs ∧
       pduFromBytes bs = .ok ({ version := 1, src := client, dst := server, length := apdu.length }, apdu) := by
-  sorry
+  refine ⟨beBytes 2 1 ++ beBytes 2 client ++ beBytes 2 server ++ beBytes 2 apdu.length ++ apdu, ?_, ?_⟩
+  · simp [wrap, pduToBytes, Header.toBytes, hc, hs, hl]
+  · have hl8 := header_length 1 client server apdu.length
+    unfold pduFromBytes
+    rw [List.take_left' hl8, List.drop_left' hl8,
+      fromBytes_header 1 client server apdu.length (by decide) hc hs hl]
+    simp
 
 /-- **length mismatch is refused**: a datagram whose length field disagrees with its payload. -/
 theorem C17_length_mismatch_refused (h : Header) (hb : Bytes) (data : Bytes)
     (hh : h.toBytes = .ok hb) (hne : h.length ≠ data.length) :
     pduFromBytes (hb ++ data) = .error .decode := by
-  sorry
+  unfold Header.toBytes at hh
+  split at hh
+  · rename_i hr
+    obtain ⟨hv, hs, hd, hn⟩ := hr
+    injection hh with hh
+    subst hh
+    have hl8 := header_length h.version h.src h.dst h.length
+    unfold pduFromBytes
+    rw [List.take_left' hl8, List.drop_left' hl8,
+      fromBytes_header _ _ _ _ hv hs hd hn]
+    simp [hne]
+  · cases hh
 
 /-- **exact receive for every read schedule**: if the peer's stream starts with a header
     announcing `payload.length` bytes followed by that payload (and then anything, e.g. the
@@ -43,7 +63,18 @@ theorem C17_recv_exact (v s d : Nat) (payload rest : Bytes) (sched : List Nat)
     ∃ sched', transportRecv { stream := beBytes 2 v ++ beBytes 2 s ++ beBytes 2 d ++ beBytes 2 payload.length ++ payload ++ rest,
                               sched := sched }
       = .ok (payload, { stream := rest, sched := sched' }) := by
-  sorry
+  have hl8 := header_length v s d payload.length
+  obtain ⟨k1, h1⟩ := recvExactly_ok 8 8
+    (beBytes 2 v ++ beBytes 2 s ++ beBytes 2 d ++ beBytes 2 payload.length) (payload ++ rest) []
+    sched (Nat.le_refl _) hl8
+  obtain ⟨k2, h2⟩ := recvExactly_ok payload.length payload.length payload rest [] k1
+    (Nat.le_refl _) rfl
+  refine ⟨k2, ?_⟩
+  unfold transportRecv
+  rw [List.append_assoc _ payload rest, h1]
+  simp only [List.nil_append]
+  rw [fromBytes_header v s d payload.length hv hs hd hn]
+  simpa using h2
 
 /-- back-to-back messages: two receives return the two payloads in order. -/
 theorem C17_back_to_back (s1 d1 s2 d2 : Nat) (p1 p2 rest : Bytes) (sched : List Nat)
@@ -53,13 +84,29 @@ theorem C17_back_to_back (s1 d1 s2 d2 : Nat) (p1 p2 rest : Bytes) (sched : List 
                                 (beBytes 2 1 ++ beBytes 2 s2 ++ beBytes 2 d2 ++ beBytes 2 p2.length ++ p2 ++ rest),
                       sched := sched } = .ok (p1, sk1) ∧
       transportRecv sk1 = .ok (p2, sk2) ∧ sk2.stream = rest := by
-  sorry
+  obtain ⟨hs1, hd1, hp1⟩ := h1
+  obtain ⟨hs2, hd2, hp2⟩ := h2
+  obtain ⟨k1, e1⟩ := C17_recv_exact 1 s1 d1 p1
+    (beBytes 2 1 ++ beBytes 2 s2 ++ beBytes 2 d2 ++ beBytes 2 p2.length ++ p2 ++ rest) sched
+    (by decide) hs1 hd1 hp1
+  obtain ⟨k2, e2⟩ := C17_recv_exact 1 s2 d2 p2 rest k1 (by decide) hs2 hd2 hp2
+  exact ⟨_, _, e1, e2, rfl⟩
 
 /-- a stream that ends before the announced payload is complete is an error, never data. -/
 theorem C17_short_stream_refused (v s d n : Nat) (part : Bytes) (sched : List Nat)
     (hv : v < 65536) (hs : s < 65536) (hd : d < 65536) (hn : n < 65536) (hshort : part.length < n) :
     ∃ e, transportRecv { stream := beBytes 2 v ++ beBytes 2 s ++ beBytes 2 d ++ beBytes 2 n ++ part, sched := sched }
       = .error e := by
-  sorry
+  have hl8 := header_length v s d n
+  obtain ⟨k1, h1⟩ := recvExactly_ok 8 8
+    (beBytes 2 v ++ beBytes 2 s ++ beBytes 2 d ++ beBytes 2 n) part []
+    sched (Nat.le_refl _) hl8
+  obtain ⟨e, he⟩ := recvExactly_short n { stream := part, sched := k1 } n [] hshort
+  refine ⟨e, ?_⟩
+  unfold transportRecv
+  rw [h1]
+  simp only [List.nil_append]
+  rw [fromBytes_header v s d n hv hs hd hn]
+  simpa using he
 
 end Props.C17
